@@ -202,6 +202,7 @@ CALLS = {
     "drm->apply()": "(Apply MDrift)", "drm->applyToAll(trackme)": "(Track MDrift)",
     "fpm->apply()": "(Apply MFP)", "fpm->applyToAll(trackme)": "(Track MFP)",
     "outstepnr++": "IncOutNr", "simulationstep++": "IncStep",
+    "delete wake_field": "(Free OWakeField)", "delete wm": "(Free OWm)", "delete fpm": "(Free OFpm)",
     'printText("Aborted.")': "(Print MAborted)", 'printText("Finished.")': "(Print MFinished)",
 }
 STATUS = [re.compile(r"^printText\(status_string\(grid_t1, (0|simulationstep / steps), rotations\)(, false(, updatetime)?)?\)$")]
@@ -354,6 +355,194 @@ class Tr:
         raise TranslateError("statement not understood: %s" % txt[:200])
 
 
+
+# ---------------------------------------------------------------------------------------------------------
+# the set-up (from the installation of the SIGINT handler to "Starting the simulation."): control skeleton
+# in the language of coq/Model/Setup.v
+
+SETUP_CALLS = {"grid_t1->updateXProjection()": "UpdateXProj", "grid_t1->normalize()": "Normalize"}
+SETUP_GUARDS = {"renormalize >= 0": "GRenorm0"}
+
+
+def refs_abort(n):
+    if n.get("kind") == "DeclRefExpr" and n["referencedDecl"].get("name") == "abort" and n["referencedDecl"].get("kind") == "VarDecl":
+        return True
+    return any(refs_abort(c) for c in kids(n))
+
+
+def is_point(n):
+    if n.get("kind") == "CallExpr":
+        try:
+            return re.match(r'^point\((.*)\)$', render(n)) is not None
+        except TranslateError:
+            return False
+    return False
+
+
+def text_of(n):
+    try:
+        return render(n)
+    except TranslateError:
+        return None
+
+
+def interesting(n):
+    """does the subtree hold something the skeleton keeps: the flag, a return, a hook point, a PhaseSpace call of SETUP_CALLS"""
+    k = n.get("kind")
+    if k == "ReturnStmt" or is_point(n):
+        return True
+    if k == "DeclRefExpr" and n["referencedDecl"].get("name") == "abort" and n["referencedDecl"].get("kind") == "VarDecl":
+        return True
+    if k == "CXXMemberCallExpr" and text_of(n) in SETUP_CALLS:
+        return True
+    return any(interesting(c) for c in kids(n))
+
+
+def line_of_node(n):
+    b = n.get("range", {}).get("begin", {})
+    off = b.get("offset", b.get("expansionLoc", {}).get("offset", b.get("spellingLoc", {}).get("offset")))
+    return _line_of(off)
+
+
+def strings_in(n, acc):
+    if n.get("kind") == "StringLiteral":
+        acc.append(n.get("value", "").strip('"'))
+    for c in kids(n):
+        strings_in(c, acc)
+    return acc
+
+
+class SetupTr:
+    def __init__(self):
+        self.points = []          # labels in source order; point i is `Point (-(i+1))`
+        self.opaque = {}          # n (source line of the first statement) -> number of statements merged
+        self.conds = {}           # n -> dict(text, then_labels, else_labels, then_strings, else_strings)
+
+    def fresh(self, n, table):
+        ln = line_of_node(n) or 0
+        while ln in self.opaque or ln in self.conds:
+            ln += 100000          # two statements on one line
+        return ln
+
+    def stmt_list(self, stmts):
+        out = []
+        for s in stmts:
+            for it in self.stmt(s):
+                if it[0] == "opq" and out and out[-1][0] == "opq":
+                    self.opaque[out[-1][1]] += 1        # a run of opaque statements is one opaque statement
+                    del self.opaque[it[1]]
+                else:
+                    out.append(it)
+        return out
+
+    def block(self, n):
+        if n.get("kind") == "CompoundStmt":
+            return self.stmt_list(kids(n))
+        return self.stmt_list([n])
+
+    def labels_of(self, items, acc):
+        for it in items:
+            if it[0] == "call" and it[1].startswith("(Point"):
+                acc.append(self.points[-int(re.search(r"-?\d+", it[1]).group(0)) - 1])
+            elif it[0] == "if":
+                self.labels_of(it[2], acc)
+                self.labels_of(it[3], acc)
+            elif it[0] == "try":
+                self.labels_of(it[1], acc)
+                self.labels_of(it[2], acc)
+        return acc
+
+    def opq(self, s):
+        n = self.fresh(s, self.opaque)
+        self.opaque[n] = 1
+        return [("opq", n)]
+
+    def stmt(self, s):
+        k = s.get("kind")
+        if k == "NullStmt":
+            return []
+        if k == "CompoundStmt":
+            return self.stmt_list(kids(s))
+        if not interesting(s):
+            return self.opq(s)
+        if is_point(s):
+            lab = re.match(r'^point\((.*)\)$', render(s)).group(1).strip('"')
+            if lab in self.points:
+                raise TranslateError("label %s used twice" % lab)
+            self.points.append(lab)
+            return [("call", "(Point (%d))" % (-len(self.points)))]
+        if k == "ReturnStmt":
+            v = render(kids(s)[0]) if kids(s) else "?"
+            if not re.match(r"^\d+$", v):
+                raise TranslateError("set-up: return %s" % v)
+            return [("return", int(v))]
+        if k == "IfStmt":
+            ks = kids(s)
+            if s.get("hasInit") or s.get("hasVar"):
+                raise TranslateError("set-up: if with init/variable")
+            if refs_abort(ks[0]):
+                raise TranslateError("set-up: the condition `%s` reads Display::abort" % (text_of(ks[0]) or "?"))
+            if interesting(ks[0]):
+                raise TranslateError("set-up: hook point or return inside a condition")
+            g = text_of(ks[0])
+            t = self.block(ks[1])
+            e = self.block(ks[2]) if len(ks) > 2 else []
+            if g in SETUP_GUARDS:
+                return [("if", "(CGuard %s)" % SETUP_GUARDS[g], t, e)]
+            n = self.fresh(s, self.conds)
+            self.conds[n] = dict(text=(g or "?")[:120], then_labels=self.labels_of(t, []), else_labels=self.labels_of(e, []),
+                                 then_strings=strings_in(ks[1], []), else_strings=strings_in(ks[2], []) if len(ks) > 2 else [])
+            return [("if", "(COpq %d)" % n, t, e)]
+        if k == "CXXTryStmt":
+            ks = kids(s)
+            catches = [c for c in ks if c.get("kind") == "CXXCatchStmt"]
+            if len(catches) != 1 or ks[0].get("kind") != "CompoundStmt":
+                raise TranslateError("set-up: try statement with %d handlers" % len(catches))
+            hk = [c for c in kids(catches[0]) if c.get("kind") == "CompoundStmt"]
+            if len(hk) != 1:
+                raise TranslateError("set-up: catch handler without a body")
+            return [("try", self.block(ks[0]), self.block(hk[0]))]
+        txt = text_of(s)
+        if txt == "abort = true":
+            return [("setabort",)]
+        if txt in SETUP_CALLS:
+            return [("call", SETUP_CALLS[txt])]
+        if refs_abort(s):
+            raise TranslateError("set-up: Display::abort is accessed by `%s` (only `Display::abort = true;` is understood)" % (txt or k)[:160])
+        raise TranslateError("set-up: %s holds a hook point, a return or a PhaseSpace call of the model and is not an if/try/block: %s" % (k, (txt or "")[:120]))
+
+
+def coq_sblk(items, ind="  "):
+    if not items:
+        return "SDone"
+    it = items[0]
+    if it[0] == "return":
+        return "SReturn %d" % it[1]          # what follows a return is dead code
+    rest = coq_sblk(items[1:], ind)
+    if it[0] == "call":
+        return "SCall %s\n%s(%s)" % (it[1], ind, rest)
+    if it[0] == "setabort":
+        return "SSetAbort\n%s(%s)" % (ind, rest)
+    if it[0] == "opq":
+        return "SOpq %d\n%s(%s)" % (it[1], ind, rest)
+    if it[0] == "if":
+        _, c, t, e = it
+        return "SIf %s\n%s  (%s)\n%s  (%s)\n%s(%s)" % (c, ind, coq_sblk(t, ind + "  "), ind, coq_sblk(e, ind + "  "), ind, rest)
+    _, t, h = it
+    return "STry\n%s  (%s)\n%s  (%s)\n%s(%s)" % (ind, coq_sblk(t, ind + "  "), ind, coq_sblk(h, ind + "  "), ind, rest)
+
+
+def handler_index(st):
+    """index of the top-level statement that installs the SIGINT handler (`signal(SIGINT, ...)` or `sigaction(SIGINT, ...)`)"""
+    idx = []
+    for i, s in enumerate(st):
+        if s.get("kind") == "CallExpr":
+            t = text_of(s) or ""
+            if re.match(r"^(signal|sigaction)\(", t) and "SIGINT_handler" in t or re.match(r"^sigaction\(2,", t):
+                idx.append(i)
+    return idx
+
+
 def coq_blk(items, ind="  "):
     """nested Seq/Cond term"""
     if not items:
@@ -421,6 +610,12 @@ def translate():
     idx = [i for i, s in enumerate(st) if has_str(s, "Starting the simulation")]
     if len(idx) != 1:
         raise TranslateError("marker statement 'Starting the simulation.' found %d times at top level" % len(idx))
+    LOCALS.clear()
+    hi = handler_index(st)
+    if len(hi) != 1 or hi[0] >= idx[0]:
+        raise TranslateError("statement installing the SIGINT handler found %d times at top level before the marker" % len(hi))
+    su = SetupTr()
+    setup_items = su.stmt_list(st[hi[0] + 1:idx[0] + 1])
     sim = st[idx[0] + 1:]
     wl = [i for i, s in enumerate(sim) if s.get("kind") == "WhileStmt"]
     if len(wl) != 1:
@@ -456,6 +651,8 @@ def translate():
             collect(c)
     for s in st[:idx[0] + 1]:
         collect(s)
+    if setup_pts != su.points:
+        raise TranslateError("hook points of the set-up outside the translated region: %s" % [l for l in setup_pts if l not in su.points])
     refs = []
     for i, s in enumerate(st):
         acc = []
@@ -468,13 +665,22 @@ def translate():
     out.append("   skipped (no effect on the modelled state): %s" % "; ".join(tr.skipped))
     out.append("   local constants replaced by their (pure) initialisers: %s *)" % ("; ".join(tr.inlined) or "none"))
     out.append("From Coq Require Import List ZArith String.")
-    out.append("From Inovesa Require Import Model.Driver.")
+    out.append("From Inovesa Require Import Model.Driver Model.Setup.")
     out.append("Import ListNotations.")
     out.append("Local Open Scope Z_scope.")
     out.append("Definition main_pre : blk :=\n  %s." % coq_blk(pre))
     out.append("Definition main_body : blk :=\n  %s." % coq_blk(bodyb))
     out.append("Definition main_post : blk :=\n  %s." % coq_blk(post))
     out.append("Definition main_prog : prog := mkprog main_pre main_body main_post.")
+    out.append("(* the set-up, from the statement after the installation of the SIGINT handler to \"Starting the simulation.\":")
+    out.append("   control skeleton (Model/Setup.v); hook point i of setup_point_names is `Point (-(i+1))`; SOpq n / COpq n: n = source")
+    out.append("   line of the (first) statement *)")
+    out.append("Definition main_setup : sblk :=\n  %s." % coq_sblk(setup_items))
+    out.append("(* opaque conditions of the set-up: (n, text) *)")
+    out.append("Definition setup_conds : list (Z * string) :=\n  [%s]." %
+               ";\n   ".join('(%d, "%s"%%string)' % (n, c["text"].replace('"', "'").replace("\\", "/")) for n, c in sorted(su.conds.items())))
+    out.append("(* opaque statements of the set-up: (n, number of consecutive statements merged into it) *)")
+    out.append("Definition setup_opaque : list (Z * Z) :=\n  [%s]." % "; ".join("(%d, %d)" % x for x in sorted(su.opaque.items())))
     out.append("(* VERIF_POINT labels of the translated part, index = argument of Point *)")
     out.append("Definition point_names : list (Z * string) :=\n  [%s]." %
                ";\n   ".join('(%d, "%s"%%string)' % (i, l) for i, l in enumerate(tr.points)))
@@ -487,7 +693,7 @@ def translate():
     out.append("Definition nondet_sources : list (string * Z * string) :=\n  [%s]." %
                ";\n   ".join('("%s"%%string, %d, "%s"%%string)' % x for x in nd))
     return "\n".join(out) + "\n", dict(points=tr.points, setup_points=setup_pts, pre=pre, body=bodyb, post=post,
-                                       abort_refs=refs, nondet=nd)
+                                       abort_refs=refs, nondet=nd, setup=setup_items, setup_conds=su.conds, setup_opaque=su.opaque)
 
 
 if __name__ == "__main__":
